@@ -305,11 +305,27 @@ func runC16(t *testing.T, c *choice.Stream, r *Result, opt RunOpt) {
 				if len(data) == 0 {
 					break
 				}
-				if c.Bool("fail.cut", 2, 3) {
+				if c.Bool("fail.field", 1, 4) {
+					// a count, offset, key or meta field of the valid encoding overwritten
+					// (located by a traced parse of the independent codec), as in C06
+					var fields []refproto.Field
+					rr := &refproto.R{B: data, Trace: &fields}
+					if refproto.DecodePrefix(rr, cs.RT) == nil {
+						_, _ = refproto.DecodeData(rr, cs.RT, k)
+					}
+					data, _ = c06Damage(c, data, fields, data)
+				} else if c.Bool("fail.cut", 2, 3) {
 					data = data[:c.Draw("fail.at", len(data))]
 				} else {
 					data = append([]byte(nil), data...)
-					data[c.Draw("fail.at", len(data))] ^= byte(1 << c.Draw("fail.bit", 8))
+					at := c.Draw("fail.at", len(data))
+					if c.Bool("fail.tail", 1, 3) {
+						at = len(data) - 1 - c.Draw("fail.at.tail", min(len(data), 24)) // keys, last values: what is read last
+					}
+					data[at] |= byte(0x80 >> c.Draw("fail.bit", 8)) // setting a bit rather than flipping it: values out of range more often
+					if c.Bool("fail.flip", 1, 2) {
+						data[at] ^= byte(1 << c.Draw("fail.bit2", 8))
+					}
 				}
 				col.Reset()
 				rd := proto.NewReader(&simio.FaultyReader{Data: data})
